@@ -1,8 +1,8 @@
 #!/bin/bash
-# ./fuzz.sh <C01|C13> <runs-per-job> [jobs]
-# Coverage-guided stage of the thorough tier of C01 / C13: builds the libFuzzer target
-# harness/fuzz/fuzz_targets/hostile.rs from /repo's current working tree (hook enabled), seeds it with
-# byte-encoded cases from the proptest generators and the committed replays, and runs <jobs> independent
+# ./fuzz.sh <C01|C13|C17> <runs-per-job> [jobs]
+# Coverage-guided stage of the thorough tier of C01 / C13 (target `hostile`) and C17 (target `reader`): builds the
+# libFuzzer target in harness/fuzz/fuzz_targets/ from /repo's current working tree (hook enabled), seeds it with
+# byte-encoded cases from the proptest generators (hostile) or a few tiny inputs (reader), and runs <jobs> independent
 # libFuzzer processes (seed = VERIF_SEED * 1000 + job) for <runs-per-job> executions each.
 # The oracles inside the target are the ones of the proptest checks. A failing input is written by the target
 # as a replay file for `check.sh <ID> replay`.
@@ -12,6 +12,7 @@ set -u
 ID="${1:?property id}"; RUNS="${2:-200000}"; JOBS="${3:-16}"
 HERE="$(cd "$(dirname "$0")" && pwd)"
 SEED="${VERIF_SEED:-1}"
+case "$ID" in C01|C13) TARGET=hostile ;; C17) TARGET=reader ;; *) echo "no fuzz target for $ID"; exit 2 ;; esac
 export CARGO_NET_OFFLINE=true
 unset RUST_BACKTRACE RUST_LIB_BACKTRACE CARGO_BUILD_RUSTFLAGS CARGO_ENCODED_RUSTFLAGS
 cd "$HERE/harness" || exit 2
@@ -20,7 +21,7 @@ mkdir -p "$HERE/harness/target"
 LOG="$HERE/harness/target/fuzz-build-$$.log"
 (
   flock 9
-  RUSTFLAGS="--cfg gamedig_verif" cargo +nightly fuzz build hostile >"$LOG" 2>&1
+  RUSTFLAGS="--cfg gamedig_verif" cargo +nightly fuzz build "$TARGET" >"$LOG" 2>&1
 ) 9>"$HERE/harness/target/.fuzz.lock"
 if [ $? -ne 0 ]; then
   echo "INCONCLUSIVE property=$ID fuzz target build failed"
@@ -29,26 +30,35 @@ if [ $? -ne 0 ]; then
   exit 2
 fi
 rm -f "$LOG"
-BIN="$HERE/harness/fuzz/target/x86_64-unknown-linux-gnu/release/hostile"
+BIN="$HERE/harness/fuzz/target/x86_64-unknown-linux-gnu/release/$TARGET"
 GDV="$HERE/harness/target/verif/gdv"
 WORK="$HERE/out/fuzz/$ID-$$"
 rm -rf "$WORK"; mkdir -p "$WORK/seeds" "$WORK/replays"
-NSEEDS=$("$GDV" fuzz-corpus "$WORK/seeds" 3000 "$SEED" | tail -1)
+if [ "$TARGET" = hostile ]; then
+  NSEEDS=$("$GDV" fuzz-corpus "$WORK/seeds" 3000 "$SEED" | tail -1)
+  MAXLEN=70000
+else
+  # operation sequences over short packets, VarInt byte strings, strings
+  printf '\000\003\000\012\021abc\000def' >"$WORK/seeds/ops-le"; printf '\010\004\002\015\033\037\000\001\002\003\004\005\006\007' >"$WORK/seeds/ops-be"
+  printf '\006\377\377\377\377\017' >"$WORK/seeds/varint"; printf '\007h\303\251llo' >"$WORK/seeds/string"
+  NSEEDS=4
+  MAXLEN=600
+fi
 T0=$(date +%s)
 pids=()
 for j in $(seq 1 "$JOBS"); do
   mkdir -p "$WORK/c$j" "$WORK/a$j"
   GDV_FUZZ_OUT="$WORK/replays" GDV_KNOWN_FINDINGS="$HERE/known_findings.json" \
-    "$BIN" "$WORK/c$j" "$WORK/seeds" -runs="$RUNS" -seed=$((SEED * 1000 + j)) -max_len=70000 -len_control=0 \
+    "$BIN" "$WORK/c$j" "$WORK/seeds" -runs="$RUNS" -seed=$((SEED * 1000 + j)) -max_len=$MAXLEN -len_control=0 \
     -timeout=25 -rss_limit_mb=8000 -print_final_stats=1 -artifact_prefix="$WORK/a$j/" >"$WORK/log$j" 2>&1 &
   pids+=($!)
 done
 abnormal=0
 for p in "${pids[@]}"; do wait "$p" || abnormal=$((abnormal + 1)); done
 T1=$(date +%s)
-python3 - "$ID" "$WORK" "$JOBS" "$RUNS" "$SEED" "$NSEEDS" $((T1 - T0)) "$HERE" <<'EOF'
+python3 - "$ID" "$WORK" "$JOBS" "$RUNS" "$SEED" "$NSEEDS" $((T1 - T0)) "$HERE" "$TARGET" <<'EOF'
 import sys, json, glob, os, re, shutil
-pid, work, jobs, runs, seed, nseeds, wall, here = sys.argv[1:9]
+pid, work, jobs, runs, seed, nseeds, wall, here, target = sys.argv[1:10]
 execs = 0; cov = 0; ft = 0; new_units = 0; other = []; timeouts = 0; ooms = 0
 for f in glob.glob(work + '/log*'):
     t = open(f, errors='replace').read()
@@ -69,11 +79,11 @@ ev_path = f'{here}/evidence/{pid}.json'
 try:
     ev = json.load(open(ev_path))
     ev['coverage']['coverage_guided_stage'] = {
-        'engine': 'libFuzzer (cargo-fuzz, target harness/fuzz/fuzz_targets/hostile.rs)', 'jobs': int(jobs), 'runs_per_job': int(runs), 'executions': execs,
+        'engine': 'libFuzzer (cargo-fuzz, target harness/fuzz/fuzz_targets/' + target + '.rs)', 'jobs': int(jobs), 'runs_per_job': int(runs), 'executions': execs,
         'seed_corpus_files': int(nseeds), 'new_corpus_units': new_units, 'edge_coverage_max_job': cov, 'features_max_job': ft, 'wall_s': int(wall),
         'libfuzzer_timeout_reports': timeouts, 'libfuzzer_oom_reports': ooms,
         'violations_of_this_property': [s for s, _ in viol], 'findings_for_other_property': other,
-        'oracle': 'as the generated tier: no panic / runaway (C01); single request <= 16 MiB, peak live <= 64 MiB, sends bounded (C13)'}
+        'oracle': 'as the generated tier: no panic / runaway (C01); single request <= 16 MiB, peak live <= 64 MiB, sends bounded (C13); agreement with the reference reader (C17)'}
     if viol: ev['result'] = 'violation'
     json.dump(ev, open(ev_path, 'w'), indent=1)
 except Exception as e:
